@@ -187,6 +187,8 @@ def arbitrary_order_set(ctx, counter):
             perms = list(itertools.permutations(range(len(items))))
             if len(perms) > 24:
                 raise AssertionError('model bound: sets of <=4 elements')
+            if counter[-1] == 'insertion-order':
+                return iter(items)          # reference run: every set iterates in insertion order
             counter[0] += 1
             k = ctx.choice('set_iteration%d_order_of_%d' % (counter[0], len(items)), len(perms)) if len(perms) > 1 else 0
             return iter([items[i] for i in perms[k]])
@@ -275,9 +277,9 @@ class C16e(Obligation):
         ctx.patch(jcompletion, 'complete_dict', lambda *a, **k: [])
         out = run()
         ctx.check(out.exc is None, 'complete() never raises')
-        # reference run: sets iterate in insertion order
-        ctx.cleanup_one(jcompletion, 'set')
-        ctx.cleanup_one(jcompletion, 'frozenset')
+        # reference run: the same set model, iterating in insertion order (a real set of identity-hashed objects
+        # would make the reference itself depend on object addresses)
+        counter.append('insertion-order')
         ref = run()
         if out.exc is not None or ref.exc is not None:
             return
